@@ -200,6 +200,16 @@ def r3_r4(run: Run, src, cg):
                         f'{kind}: the generated text can differ between runs / hash seeds', loc=loc_of(f.module.path, node))
         else:
             run.ok('C09.R3', f.qualname, 'no nondeterminism source', nontrivial=(len(f.node.body) > 1), loc=loc_of(f.module.path, f.node))
+        # a memoising decorator is a process-global store keyed by the arguments: what an earlier translation computed (token
+        # objects, Cell objects already resolved and filled) is handed to a later one
+        for d in f.node.decorator_list:
+            dn = ast.unparse(d.func if isinstance(d, ast.Call) else d)
+            if dn.split('.')[-1] in ('lru_cache', 'cache', 'memoize', 'memoized', 'cached'):
+                run.bad('C09.R4', f'{f.qualname}/@{dn}', 'memoised-translation-step',
+                        f'{f.qualname} (reachable from _translate: {" -> ".join(cg.path_to(reach, key)[-4:])}) is memoised with @{dn}: '
+                        f'the cache is process-global and keyed by the arguments, so objects created and mutated during an earlier '
+                        f'translation (tokens, resolved and filled Cell objects) are reused by a later translation -- the output then '
+                        f'depends on process history', loc=loc_of(f.module.path, f.node))
         # class-level / module-level stores
         for st in stores_of(f.node):
             is_global = st.kind in ('cls-attr', 'global')
